@@ -5,7 +5,7 @@ from props import _text as T
 ID = "C12"
 IMPORTS = ["CaresProps.C12"]
 # only this slice's modules: other builders' files may be mid-edit in the shared lake project
-LEAN_TARGETS = ["CaresProps.C12", "driver_text"]
+LEAN_TARGETS = ["CaresProps.C12", "driver_text", "driver_sim"]
 THEOREMS = [
     "Cares.C12.candidates_order",
     "Cares.C12.only_name_when_not_eligible",
@@ -245,3 +245,10 @@ LEVEL_NOTE = ("Trusted: Lean kernel (axioms propext, Classical.choice, Quot.soun
               "exercise it; harness/h_text.c incl. its virtual socket layer; the runner. F1 (candidates longer than 255 bytes) is outside "
               "the outcome-fold model and belongs to C01.")
 TECHNIQUE = "Lean 4 proofs over an executable model of the search list and walk + differential correspondence with ares_search_name_list / ares_search / ares_getaddrinfo"
+
+
+# end-to-end walk on the whole channel (coordinator's simulator): names actually queried per request, stop rule and final
+# status of ares_search / ares_getaddrinfo against the channel model and against a resolv.conf(5) monitor
+import simlib as _simlib
+STREAMS = STREAMS + [_simlib.walk_stream()]
+DRIVER_MODULES = ["Driver.SimMain"]
